@@ -1,6 +1,11 @@
 import StirVerif.C18.Model
 /-! Line-protocol driver for C18: validates event traces recorded from the OpenMP build of the library
-    (harness/c18_threads.cxx) against the protocol model's trace validators. -/
+    (harness/c18_threads.cxx) against the protocol model's trace validators, and answers the operations on the
+    executable models of the per-thread accumulators (`acc …`) and of the number of threads (`nt …`).
+
+    A trace is `begin <name> <bp> <fp> <dist>`, `ev …` / `threads <T>` lines, `end`.  A `threads` line starts a new segment:
+    the number of threads in force from there on.  Lazy tables and the cache are validated over the whole trace (their state
+    outlives a change of the number of threads), the work items and the thread numbers segment by segment. -/
 namespace Driver.C18
 open StirVerif.C18
 
@@ -9,29 +14,76 @@ structure St where
   expectedBp : Nat := 0
   expectedFp : Nat := 0
   expectedDist : Nat := 0
-  evs : List Ev := []      -- reversed
+  evs : List Ev := []                      -- reversed, whole trace
+  segs : List (Nat × List Ev) := []        -- reversed list of closed segments (thread bound, events in order)
+  bound : Nat := 0                         -- thread bound of the open segment (0: none given)
+  cur : List Ev := []                      -- reversed, open segment
+  -- state that outlives the traces
+  acc : Option Accum := some Accum.new     -- `none`: an index outside the vector happened (undefined behaviour in the C++)
+  nt : Option NumThreads := some { alreadySetOnce := false, maxThreads := 0 }
 
 def finish (s : St) : String :=
   let evs := s.evs.reverse
-  let checks : List (Option String) :=
+  let segs := ((s.bound, s.cur.reverse) :: s.segs).reverse
+  let whole : List (Option String) :=
     [validateDcl "pdi.ringdiff" evs, validateDcl "pdi.vt2det" evs, validateDcl "pdi.det2vt" evs,
-     validateCache evs,
-     if s.expectedBp > 0 then validateWork "bp.work" s.expectedBp evs else none,
-     if s.expectedFp > 0 then validateWork "fp.work" s.expectedFp evs else none,
-     if s.expectedDist > 0 then validateWork "dist.work" s.expectedDist evs else none]
-  match checks.findSome? id with
+     validateCache evs]
+  let perSeg : List (Option String) :=
+    segs.flatMap fun (b, es) =>
+      -- a segment without any work item of a kind is a segment in which that kind of pass did not run
+      let cnt (site : String) := (es.filter (·.site == site)).length
+      [validateThreads b es,
+       if s.expectedBp > 0 && (segs.length == 1 || cnt "bp.work" > 0) then validateWork "bp.work" s.expectedBp es else none,
+       if s.expectedFp > 0 && (segs.length == 1 || cnt "fp.work" > 0) then validateWork "fp.work" s.expectedFp es else none,
+       if s.expectedDist > 0 && (segs.length == 1 || cnt "dist.work" > 0) then validateWork "dist.work" s.expectedDist es else none]
+  match (whole ++ perSeg).findSome? id with
   | some why => s!"reject: {why}"
   | none => "ok"
+
+def natsToString (l : List Nat) : String := String.intercalate " " (l.map toString)
+
+def parseEnv (t : String) : Option Int := if t == "none" then none else t.toInt?
 
 def stepLine (s : St) (line : String) : St × String :=
   let toks := (line.trimAscii.toString.splitOn " ").filter (· ≠ "")
   match toks with
   | ["begin", name, bp, fp, dist] =>
-    ({ scenario := name, expectedBp := bp.toNat?.getD 0, expectedFp := fp.toNat?.getD 0,
-       expectedDist := dist.toNat?.getD 0, evs := [] }, "begin")
+    ({ s with scenario := name, expectedBp := bp.toNat?.getD 0, expectedFp := fp.toNat?.getD 0,
+              expectedDist := dist.toNat?.getD 0, evs := [], segs := [], bound := 0, cur := [] }, "begin")
   | ["ev", tid, site, key, val] =>
-    ({ s with evs := ⟨tid.toNat?.getD 0, site, key.toInt?.getD 0, val.toInt?.getD 0⟩ :: s.evs }, ".")
-  | ["end"] => ({}, finish s)
+    let e : Ev := ⟨tid.toNat?.getD 0, site, key.toInt?.getD 0, val.toInt?.getD 0⟩
+    ({ s with evs := e :: s.evs, cur := e :: s.cur }, ".")
+  | ["threads", t] =>
+    -- an empty unbounded first segment is dropped
+    let segs := if s.cur.isEmpty && s.bound == 0 then s.segs else (s.bound, s.cur.reverse) :: s.segs
+    ({ s with segs := segs, bound := t.toNat?.getD 0, cur := [] }, ".")
+  | ["end"] =>
+    ({ s with scenario := "", expectedBp := 0, expectedFp := 0, expectedDist := 0, evs := [], segs := [], bound := 0, cur := [] },
+     finish s)
+  -- per-thread accumulators of one back projector
+  | ["acc", "new"] => ({ s with acc := some Accum.new }, ".")
+  | ["acc", "setup", n] => ({ s with acc := s.acc.map (·.setUp (n.toNat?.getD 0)) }, ".")
+  | "acc" :: "pass" :: tids =>
+    -- the contribution of a work item is abstracted to 1
+    let work := tids.map fun t => (t.toNat?.getD 0, (1 : Int))
+    let a' := s.acc.bind (·.pass work)
+    ({ s with acc := a' }, if a'.isSome then "." else "out-of-range")
+  | ["acc", "output"] =>
+    match s.acc with
+    | some a => (s, if a.live.isEmpty then "slots" else "slots " ++ natsToString a.live)
+    | none => (s, "undefined")
+  -- number of threads
+  | ["nt", "default", np, env] => (s, toString (getDefaultNumThreads (np.toInt?.getD 0) (parseEnv env)))
+  | ["nt", "set", n, np, env] =>
+    let d := getDefaultNumThreads (np.toInt?.getD 0) (parseEnv env)
+    match s.nt.bind (·.set (n.toInt?.getD 0) d) with
+    | some t => ({ s with nt := some t }, s!"max {t.maxThreads}")
+    | none => ({ s with nt := none }, "never-returns")
+  | ["nt", "setdefault", np, env] =>
+    let d := getDefaultNumThreads (np.toInt?.getD 0) (parseEnv env)
+    match s.nt.bind (·.setDefault d) with
+    | some t => ({ s with nt := some t }, s!"max {t.maxThreads}")
+    | none => ({ s with nt := none }, "never-returns")
   | _ => (s, "bad-op")
 
 partial def loop (h : IO.FS.Stream) (s : St) : IO Unit := do
